@@ -1180,7 +1180,7 @@ class Interp:
 
     def call_function(self, fi: FuncInfo, args, kwargs, looked_up_on=None, force_inline=False) -> V:
         key = self.contract_key(fi)
-        if not force_inline and key in self.contracts and (key != self.verifying or key in self.active_calls):
+        if not force_inline and key in self.contracts and (key != self.verifying or key in self.active_calls) and not (self.contracts[key].callers_inline and key not in self.active_calls):
             from . import modular
             return modular.apply_contract(self, self.contracts[key], fi, args, kwargs)
         if self.call_depth > self.MAX_INLINE_DEPTH:
